@@ -857,6 +857,12 @@ func positionMappings(p *core.Program, f *core.Func, depth int) []string {
 		isPos := t != nil && core.NamedTypeName(t) == "go/token.Position"
 		isLine := name == "(*go/token.File).Line" || name == "(*go/token.File).Name" || name == "(*go/token.File).PositionFor" || name == "(*go/token.File).Position"
 		if !isPos && !isLine {
+			// a helper of the package that builds the key (or wraps the mapping)
+			if h := p.FuncOfObj(core.CalleeFunc(info, c)); h != nil && h.Body != nil && h.Pkg == f.Pkg && h.Root() != f.Root() {
+				for _, m := range positionMappings(p, h, depth+1) {
+					set[m] = true
+				}
+			}
 			continue
 		}
 		if h := p.FuncOfObj(core.CalleeFunc(info, c)); h != nil && h.Body != nil && h.Pkg == f.Pkg {
